@@ -245,7 +245,7 @@ func runC15(r *Run) {
 				}
 				ok := false
 				for _, ci := range ifsOn(fn, func(v ssa.Value) bool { return valueIsLoadOfField(v, m.CloseConn) }) {
-					if ci.OnTrue.Dominates(b) && len(ci.OnTrue.Preds) == 1 {
+					if blockDominates(ci.OnTrue, b) && len(ci.OnTrue.Preds) == 1 {
 						ok = true
 					}
 				}
@@ -633,7 +633,7 @@ func checkGate(r *Run, rc *RuleCtx, m *clientModel) {
 	errClosed, _ := p.Stun.Members["ErrClientClosed"].(*ssa.Global)
 	nret := 0
 	for _, ret := range returnsOf(fn) {
-		if ci.OnTrue.Dominates(ret.Block()) && len(ci.OnTrue.Preds) == 1 {
+		if blockDominates(ci.OnTrue, ret.Block()) && len(ci.OnTrue.Preds) == 1 {
 			nret++
 			if errClosed == nil || !loadsGlobal(ret.Results[0], errClosed) {
 				rc.Violation(fn, instrPos(ret), "closed edge of Start", "Start on a closed client must return ErrClientClosed")
@@ -661,7 +661,7 @@ func checkGate(r *Run, rc *RuleCtx, m *clientModel) {
 		}
 		n++
 		rc.Instance("Start|"+side, true, map[string]string{"side_effect": side})
-		if !(ci.OnFalse.Dominates(b) && len(ci.OnFalse.Preds) == 1) {
+		if !(blockDominates(ci.OnFalse, b) && len(ci.OnFalse.Preds) == 1) {
 			rc.Violation(fn, instrPos(in), side+" before the closed test", "a side effect of Start is reachable on a closed client")
 		}
 	})
